@@ -1,7 +1,7 @@
 """C18 - feature structures: unification is the glb; FCFG membership respects unification."""
 import itertools
 
-from vf import core
+from vf import core, values
 from vf.ref import cfg as rc
 from vf.ref import fs as rfs
 from vf.worker import call
@@ -490,6 +490,6 @@ def run_case(c, stats):
     nt = False
     with core.case(c, tags):
         for w in itertools.chain.from_iterable(itertools.product("ab", repeat=k) for k in range(N + 1)):
-            ok, r = call(g.contains, list(w))
+            ok, r = call(g.contains, values.word_form(w, len(w) + len(c["prods"])))
             nt = nt or (ok and bool(r))
     return nt
